@@ -23,14 +23,14 @@ ENTRY = envstr("VF_ENTRY", "string")        # "string": Sid(base?query) ; "get_w
 
 
 def _val_ok(v: str) -> bool:
-    """Values of the statement's family: non-empty, no URL metacharacters / whitespace; '~' only as first char."""
+    """Values of the statement's family: non-empty, no URL metacharacters / whitespace; an optional ('~'-prefixed) value has no further '~'."""
     if v == "":
         return False
     for i, ch in enumerate(v):
         if ch in "&=+%#;?:" or ch.isspace():
             return False
-        if ch == "~" and i > 0:
-            return False
+        if ch == "~" and i > 0 and v[0] == "~":
+            return False       # '~' inside an optional ('~'-prefixed) value: outside the statement
     return True
 
 
